@@ -3,7 +3,7 @@
 # revert, and record the outcome in selftest/seeded_results.tsv (id, property, rc, seconds, first message).
 TIER="${1:-quick}"; shift
 cd /verif
-IDS="${@:-$(ls seeded)}"
+IDS="${@:-$(ls seeded | grep -v ^_)}"
 for id in $IDS; do
   d=seeded/$id; prop=$(python3 -c "import json;print(json.load(open('$d/meta.json'))['property'])")
   git -C /repo checkout -q -- . ; git -C /repo apply /verif/$d/patch.diff || { echo -e "$id\t$prop\tAPPLY-FAIL"; continue; }
